@@ -589,7 +589,9 @@ func countConds(e *lql.Expression) (n int, fn bool) {
 // ---------- generators of source conditions ----------
 
 var ops = []string{"=", "!=", "<", ">", "<=", ">=", "LIKE", "like", "Like", "CONTAINS", "contains", "PREFIX", "prefix", "SUFFIX", "suffix"}
-var likePats = []string{"a*", "*", "?b*", "[a-c]*", "*x", "a?c", "\"[\"", "\"a[\"", "\"[]a\"", "\"[a-\"", "\"\\\\\"", "\"*[\"", "'['"}
+var likePats = []string{"a*", "*", "?b*", "[a-c]*", "*x", "a?c", "\"[\"", "\"a[\"", "\"[]a\"", "\"[a-\"", "\"\\\\\"", "\"*[\"", "'['",
+	// path.Match: `*` and `?` do not cross a '/', a backslash escapes, a class can hold a '/'
+	"\"/var/log/*\"", "\"/var/*/x\"", "\"*/access.log\"", "\"a/*\"", "\"/var/log/*/*\"", "\"a/?/c\"", "\"a\\\\*\"", "\"a[/]b*\"", "\"*/*\"", "\"/*\""}
 var valPool = []string{"a", "abc", "b", "ab", "x", "A", "\"\"", "\"a b\"", "1", "10", "\"A\"", "bc", "'a'", "9", "2", "aB", "abd", "\"\\xff\""}
 
 func genIdent(r *Rng, depth int) string {
@@ -611,6 +613,11 @@ func genCond(r *Rng, vals []string) string {
 	op := ops[r.Intn(len(ops))]
 	v := ""
 	switch {
+	case strings.ToUpper(op) == "LIKE" && len(vals) > 0 && r.Chance(1, 3):
+		// a proper prefix of a value of the sets and `*`: what a short cut for "prefix*" would get wrong when the
+		// rest of the value holds a '/'
+		x := vals[r.Intn(len(vals))]
+		v = strconv.Quote(x[:r.Intn(len(x)+1)] + "*")
 	case strings.ToUpper(op) == "LIKE":
 		v = likePats[r.Intn(len(likePats))]
 	case r.Chance(1, 2) && len(vals) > 0:
@@ -1217,6 +1224,23 @@ func mkEval(rp Replay) (*Case, error) {
 		}
 		if !same {
 			viol = &Violation{Class: "fromexpr-string-entry-differs", Detail: fmt.Sprintf("source %s: BuildTagsExpFunc (err %v) and BuildTagsExpFuncBySource (err %v) disagree", show(q), err2, err)}
+		}
+	}
+	if viol == nil && rp.AST == 0 && err == nil && src != nil {
+		// the printed source (what CREATE PIPE ... FROM stores and parses again) selects the same sets; a print that does
+		// not parse is C12's business
+		printed := ""
+		quiet(func() { printed = src.String() })
+		if src2, e := lql.ParseSource(printed); e == nil && printed != "" {
+			if tef3, e3 := lql.BuildTagsExpFuncBySource(src2); e3 == nil {
+				for _, m := range sets {
+					a, b := false, false
+					quiet(func() { a = tef(tag.MapToSet(m)); b = tef3(tag.MapToSet(m)) })
+					if a != b && viol == nil {
+						viol = &Violation{Class: "fromexpr-printed-source-selects-differently", Detail: fmt.Sprintf("source %s is printed as %s, which gives %v instead of %v on %s", show(q), show(printed), b, a, show(mapKey(m)))}
+					}
+				}
+			}
 		}
 	}
 	cs.Oracle = viol
@@ -2215,7 +2239,8 @@ func main() {
 				if r.Chance(1, 2) {
 					// values the expression pools can hit
 					for j := range ps {
-						ps[j].v = r.PickStr("a", "abc", "ABC", "ab", "b", "", "x", "a b", "10", "1", "A", "9", "2", "aB", "abd", "\xff", "a\x00")
+						ps[j].v = r.PickStr("a", "abc", "ABC", "ab", "b", "", "x", "a b", "10", "1", "A", "9", "2", "aB", "abd", "\xff", "a\x00",
+							"/var/log/x", "/var/log/nginx/access.log", "a/b/c", "a/b", "a/", "/", "a*", "a\\b", "a[b]", "a?c", "ab/c")
 					}
 				}
 				sets = append(sets, ps)
@@ -2256,6 +2281,19 @@ func main() {
 					{K: "call", T: []byte(`{name="app "}`)}}})
 		for i := 0; i < c.N(50); i++ {
 			jobs = append(jobs, genOps(r))
+		}
+		// LIKE is path.Match: `*` and `?` stay within one '/'-separated segment
+		for _, q := range []string{`name LIKE "/var/log/*"`, `name like "/var/*/x"`, `name LIKE "*/access.log"`, `name LIKE "/var/log/*/*"`, `name LIKE "a*"`,
+			`name LIKE "a/*"`, `name LIKE "*"`, `name LIKE "*/*"`, `name LIKE "/*"`, `name LIKE "a/?/c"`, `NOT name LIKE "/var/*" AND name LIKE "/*/*/*"`,
+			`upper(name) LIKE "/VAR/LOG/*"`, `name LIKE "a\\*"`, `name LIKE "a[/]b*"`} {
+			jobs = append(jobs, Replay{Kind: "eval", Sources: []string{q},
+				Sets: bs(`name="/var/log/x"`, `name="/var/log/nginx/access.log"`, `name="a/b/c"`, `name="a/b"`, `name=a`, `name="a*"`, `name="/"`, `name=""`, `ip=1`)})
+		}
+		jobs = append(jobs, Replay{Kind: "hist", Texts: bs(`name="/var/log/x"`, `name="/var/log/nginx/access.log"`, `name="a/b/c"`, `name=abc`),
+			Sources: []string{`name LIKE "/var/log/*"`, `name LIKE "a*"`, `name LIKE "*"`, `name LIKE "/var/*/*/*"`, `{name="a/b/c"}`}, Restart: true})
+		// NOT in front of a parenthesised group without OR: the printed source must keep the group
+		for _, q := range []string{`NOT (name=app1 AND ip=1)`, `NOT (name=app1 AND ip=1) AND zone=z`, `zone=z AND (name=app1 AND ip=1)`, `NOT (NOT (name=app1 AND ip=1))`, `NOT (name=app1 OR ip=1)`} {
+			jobs = append(jobs, Replay{Kind: "eval", Sources: []string{q}, Sets: bs(`name=app1,ip=1,zone=z`, `name=app1,ip=2,zone=z`, `name=app2,ip=1`, `zone=z`)})
 		}
 		// sources the parser cannot produce, applied to four sets
 		for i := range astCorpus() {
